@@ -19,9 +19,9 @@ type (
 	Cond      = sync.Cond
 )
 
-func NewCond(l Locker) *Cond                           { return sync.NewCond(l) }
-func OnceFunc(f func()) func()                         { return sync.OnceFunc(f) }
-func OnceValue[T any](f func() T) func() T             { return sync.OnceValue(f) }
+func NewCond(l Locker) *Cond                                   { return sync.NewCond(l) }
+func OnceFunc(f func()) func()                                 { return sync.OnceFunc(f) }
+func OnceValue[T any](f func() T) func() T                     { return sync.OnceValue(f) }
 func OnceValues[T1, T2 any](f func() (T1, T2)) func() (T1, T2) { return sync.OnceValues(f) }
 
 // ---------------------------------------------------------------- Mutex
@@ -158,13 +158,15 @@ type Pool struct {
 	New func() any
 
 	real  sync.Pool
-	items []any
+	items []any // manually managed (no append/copy: the runtime's slice helpers are race-instrumented even under //go:norace)
+	n     int
 	out   int64
 	reg   bool
 }
 
 var (
-	allPools     []*Pool
+	allPools     [1 << 16]*Pool
+	nPools       int
 	poolRaceHash [128]uint64
 )
 
@@ -179,9 +181,10 @@ func poolRaceAddr(x any) unsafe.Pointer {
 
 //go:norace
 func (p *Pool) register() {
-	if !p.reg {
+	if !p.reg && nPools < len(allPools) {
 		p.reg = true
-		allPools = append(allPools, p)
+		allPools[nPools] = p
+		nPools++
 	}
 }
 
@@ -197,16 +200,18 @@ func (p *Pool) Get() any {
 	p.register()
 	verifsim.SyncPoint()
 	var x any
-	d := verifsim.PoolGetDecision(len(p.items))
+	d := verifsim.PoolGetDecision(p.n)
 	if d < 0 {
 		if p.New != nil {
 			x = p.New()
 		}
 	} else {
 		x = p.items[d]
-		copy(p.items[d:], p.items[d+1:])
-		p.items[len(p.items)-1] = nil
-		p.items = p.items[:len(p.items)-1]
+		for i := d; i < p.n-1; i++ {
+			p.items[i] = p.items[i+1]
+		}
+		p.items[p.n-1] = nil
+		p.n--
 		verifsim.RaceAcquire(poolRaceAddr(x))
 	}
 	p.out++
@@ -227,7 +232,15 @@ func (p *Pool) Put(x any) {
 	p.out--
 	verifsim.RaceReleaseMerge(poolRaceAddr(x))
 	if verifsim.PoolPutDecision() {
-		p.items = append(p.items, x)
+		if p.n == len(p.items) {
+			ni := make([]any, 2*len(p.items)+8)
+			for i := 0; i < p.n; i++ {
+				ni[i] = p.items[i]
+			}
+			p.items = ni
+		}
+		p.items[p.n] = x
+		p.n++
 	}
 	verifsim.SyncPoint()
 }
@@ -236,11 +249,12 @@ func (p *Pool) Put(x any) {
 //
 //go:norace
 func FlushPools() {
-	for _, p := range allPools {
-		for i := range p.items {
+	for k := 0; k < nPools; k++ {
+		p := allPools[k]
+		for i := 0; i < p.n; i++ {
 			p.items[i] = nil
 		}
-		p.items = p.items[:0]
+		p.n = 0
 	}
 	verifsim.PoolFlushed()
 }
@@ -250,8 +264,8 @@ func FlushPools() {
 //go:norace
 func PooledObjects() int {
 	n := 0
-	for _, p := range allPools {
-		n += len(p.items)
+	for k := 0; k < nPools; k++ {
+		n += allPools[k].n
 	}
 	return n
 }
